@@ -183,11 +183,44 @@ def run(db, rep):
                     if gb:
                         bad = "`%s` is read when %s but written only when %s: %s" % (nmw, gb[0], gb[1], gb[2])
                         break
+        # coverage by name: whatever the constructor chain reads into a named member the serialiser writes from a member of
+        # that name at least as often, and the other way round (tabled exceptions: members filled by other means)
+        if not bad:
+            import collections
+            rc_ = collections.Counter(member_name(r[2]) for r in rt if r[1] == "read" and member_name(r[2]))
+            wc_ = collections.Counter(member_name(x[2]) for x in wt if x[1] == "write" and member_name(x[2]))
+            for nm_, cnt in sorted(rc_.items()):
+                if wc_.get(nm_, 0) < cnt:
+                    bad = ("`%s` is read %d time(s) by the constructor chain but written %d time(s) by write_serialization: what was parsed "
+                           "into it does not reach the wire again" % (nm_, cnt, wc_.get(nm_, 0)))
+                    break
+            if not bad:
+                for nm_, cnt in sorted(wc_.items()):
+                    if rc_.get(nm_, 0) < cnt and (short, nm_) not in WRITE_ONLY_OK:
+                        bad = ("`%s` is written %d time(s) by write_serialization but read %d time(s) by the constructor chain: parsing the "
+                               "serialization does not restore it" % (nm_, cnt, rc_.get(nm_, 0)))
+                        break
         key = short
         if bad:
             rep.violation("R3-sequence", key, facts.loc(fs[0]), "%s: %s" % (short, bad))
         else:
             rep.ok("R3-sequence", key, facts.loc(fs[0]), "%d leading item(s) agree: %s" % (n_cmp, [member_name(r[2]) or "?" for r in rt[:n_cmp]]))
+
+
+WRITE_ONLY_OK = {
+    # (class, member): why the constructor fills it without a cursor read of that name
+    ("ICMPv6", "target_address_"): "read inside a switch over the message type through a local cursor",
+    ("ICMPv6", "dest_address_"): "as above",
+    ("ICMPv6", "reach_time_"): "as above",
+    ("ICMPv6", "retrans_timer_"): "as above",
+    ("IP", "length"): "option length octet: derived from the option's data size",
+    ("IPv6", "length"): "extension header length octet: derived",
+    ("TCP", "length"): "option length octet: derived",
+    ("LLC", "control_field.super"): "read through the union arm selected by the frame format",
+    ("Loopback", "family_"): "read as a plain integer local first",
+    ("RadioTap", "options_payload_"): "assigned from the cursor's pointer range",
+    ("RawPDU", "payload_"): "assigned from the buffer range",
+}
 
 
 def guard_form(guards):
